@@ -736,6 +736,9 @@ func (fr *Frame) propsFor(p []string) []string {
 
 func (fr *Frame) enterLoop(h *ssa.BasicBlock, li *loopInfo, order []*ssa.BasicBlock) *State {
 	fc := fr.fc
+	if !fr.inlined {
+		fc.curBlock = h
+	}
 	var entries []*ssa.BasicBlock
 	for _, p := range li.entries {
 		if _, done := fr.exit[p.Index]; done {
@@ -766,6 +769,7 @@ func (fr *Frame) enterLoop(h *ssa.BasicBlock, li *loopInfo, order []*ssa.BasicBl
 	}
 	saveErrs := len(fc.errors)
 	saveRets := len(fr.rets)
+	saveCands := len(fc.cands)
 	activeLogs[fc] = append(activeLogs[fc], log)
 	fr.runBlocks(order, entrySt, r, li)
 	activeLogs[fc] = activeLogs[fc][:len(activeLogs[fc])-1]
@@ -773,6 +777,10 @@ func (fr *Frame) enterLoop(h *ssa.BasicBlock, li *loopInfo, order []*ssa.BasicBl
 	fc.obls = fc.obls[:saveObls]
 	fc.nameCnt = saveCnt
 	fr.rets = fr.rets[:saveRets]
+	for _, c := range fc.cands[saveCands:] {
+		delete(fc.candSet, c)
+	}
+	fc.cands = fc.cands[:saveCands]
 	_ = saveErrs
 	for bi := range li.blocks {
 		delete(fr.exit, bi)
@@ -916,6 +924,10 @@ func (fr *Frame) enterLoop(h *ssa.BasicBlock, li *loopInfo, order []*ssa.BasicBl
 	}
 	_ = saveCounter
 	fr.flushClosed(st)
+	if !fr.inlined {
+		fc.curBlock = h
+	}
+	fr.curBlock = h
 	// phis
 	for _, ins := range h.Instrs {
 		phi, ok := ins.(*ssa.Phi)
@@ -928,7 +940,6 @@ func (fr *Frame) enterLoop(h *ssa.BasicBlock, li *loopInfo, order []*ssa.BasicBl
 		if _, _, isInt := intInfo(phi.Type()); isInt && !v.IsAg {
 			fc.addCand(v.S)
 			fc.addCand(sApp("+", v.S, "1"))
-			fc.addCand(sApp("+", v.S, "2"))
 		}
 	}
 	// 5. assume invariants
@@ -948,6 +959,9 @@ func (fr *Frame) enterLoop(h *ssa.BasicBlock, li *loopInfo, order []*ssa.BasicBl
 func (fr *Frame) exec(b *ssa.BasicBlock, st *State, ins ssa.Instruction) {
 	fc := fr.fc
 	fr.curBlock = b
+	if !fr.inlined {
+		fc.curBlock = b
+	}
 	switch x := ins.(type) {
 	case *ssa.DebugRef:
 	case *ssa.Alloc:
@@ -1657,7 +1671,11 @@ func (fr *Frame) execNext(b *ssa.BasicBlock, st *State, x *ssa.Next) {
 	seen := fc.rd(st, hIter, it)
 	present := func(key string) string { return fr.mapPresent(st, mt, m, key) }
 	fr.assume(b, sImp(ok, sAnd(present(k), sNot(sSel(seen, k)))))
-	fr.assume(b, sImp(sNot(ok), fmt.Sprintf("(forall ((kk Int)) (! (=> %s (select %s kk)) :pattern ((select %s kk))))", present("kk"), seen, seen)))
+	fc.qcount++
+	kk := fmt.Sprintf("qv%dx_kk", fc.qcount)
+	exitBody := sImp(present(kk), sSel(seen, kk))
+	exitAll := fmt.Sprintf("(forall ((%s Int)) (! %s :pattern ((select %s %s))))", kk, exitBody, seen, kk)
+	fc.addFactQ(fr.reach[b.Index], sImp(sNot(ok), exitAll), []QInst{{Forall: exitAll, Var: kk, Inst: exitBody}})
 	kv := Val{S: k, Typ: mp.Key()}
 	fc.addCand(k)
 	fr.assume(b, sImp(ok, fr.typeFacts(kv, st)))
